@@ -491,8 +491,10 @@ def getattr_value(eng, v, attr):
                 return m.bind(v)
             if m is not None:
                 return m
-        if eng.spec:
-            raise EngineError('no attribute %s on %r' % (attr, v))
+        if eng.spec or not v.__dict__.get('closed', False):
+            # an object built by a contract models only the attributes the verified code is known to use; anything else is
+            # outside the model (undecided), not an AttributeError of the real object
+            raise EngineError('attribute %s of %r is not modelled' % (attr, v))
         raise PyExc('AttributeError', (attr,), eng.line)
     if isinstance(v, ModuleV):
         if attr in v.attrs:
@@ -1354,6 +1356,14 @@ def b_sum(eng, x, start=0):
         ps = None
     if ps is not None and src is not None and type_of(src) == TSeq(TInt) and start == 0:
         return eng.call(ps, [src, b_len(eng, src)], {})
+    vo = getattr(it, 'values_of', None)
+    if vo is not None and isinstance(type_of(vo), TMap) and type_of(vo).v == TInt and start == 0:
+        try:
+            sv = eng.spec_fallback.lookup('SUMV')    # sum(d.values()): the contract's SUMV(d, i) at i = len(d)
+        except (KeyError, AttributeError):
+            sv = None
+        if sv is not None:
+            return eng.call(sv, [vo, b_len(eng, vo)], {})
     if src is not None and type_of(src) == TSeq(TReal) and start == 0:
         try:
             sw = eng.spec_fallback.lookup('SW')      # same convention for lists of reals: SW(w, i)
@@ -1573,7 +1583,9 @@ def dict_values(eng, d):
     ty = type_of(d)
     e = to_z3(d)
     parent = d if isinstance(d, Box) else None
-    return IterV(_simp_n(ty.n(e)), lambda i: wrap(ty.v, ty.at(e, ty.key_at(e, _int(i))), parent, ty.key_at(e, _int(i))))
+    it = IterV(_simp_n(ty.n(e)), lambda i: wrap(ty.v, ty.at(e, ty.key_at(e, _int(i))), parent, ty.key_at(e, _int(i))))
+    it.values_of = d
+    return it
 
 
 def dict_pop(eng, d, k, *default):
